@@ -37,10 +37,17 @@ func c08sLayout(root string) {
 	syscall.Mkfifo(filepath.Join(root, "pub/fifo"), 0644)
 }
 
+var c08sN int
+
 // c08sSession cats one path/glob and returns the set of files whose content was disclosed.
 func c08sSession(u *user.User, req string) (disclosed []string, problem string) {
 	h := NewServerHandler(u, make(chan struct{}, 8), make(chan struct{}, 8))
-	payload := fmt.Sprintf("cat:quiet=true %s regex:noop ", req)
+	// the verdict must not depend on how the request is worded: command (cat / grep), and the output options a client
+	// may send along (all of them are under the client's control, also on a remote server)
+	c08sN++
+	forms := []string{"cat:quiet=true %s regex:noop ", "cat:quiet=true:serverless=true %s regex:noop ", "cat:quiet=true:plain=true %s regex:noop ",
+		"grep:quiet=true %s regex:default .", "grep:serverless=true:plain=true:quiet=true %s regex:default CONTENT|second", "cat:quiet=true:before=1:after=1 %s regex:noop "}
+	payload := fmt.Sprintf(forms[c08sN%len(forms)], req)
 	h.Write([]byte(fmt.Sprintf("protocol 4.1 base64 %s;", base64.StdEncoding.EncodeToString([]byte(payload)))))
 	seen := map[string]bool{}
 	buf := make([]byte, 64*1024)
